@@ -196,7 +196,7 @@ func (r *relayInner) cleanup() (stuck bool) {
 	go func() { r.wg.Wait(); close(done) }()
 	select {
 	case <-done:
-	case <-time.After(20 * time.Second):
+	case <-time.After(completionBound / 3):
 		stuck = true
 	}
 	return
